@@ -41,9 +41,21 @@ def install():
     signal.signal(signal.SIGPROF, _alarm)
 
 
+LIMIT = 0        # the limit currently in force (set by arm); rearm() restarts it for the next unit of work of the same run
+
+
 def arm(seconds):
+    global LIMIT
+    LIMIT = seconds
     signal.setitimer(signal.ITIMER_PROF, seconds)
     signal.setitimer(signal.ITIMER_REAL, seconds * 15)
+
+
+def rearm():
+    """a run that consists of many independent decodes (complete enumeration of variants) gets the limit per decode"""
+    if LIMIT:
+        signal.setitimer(signal.ITIMER_PROF, LIMIT)
+        signal.setitimer(signal.ITIMER_REAL, LIMIT * 15)
 
 
 def uninstall():
